@@ -1,5 +1,5 @@
 (* C17 — theorems (statements are the *_stmt definitions of Proofs.v / ProofsAlloc.v). *)
-From C17 Require Import Model Proofs ProofsAlloc ProofsFrame ProofsRC.
+From C17 Require Import Model Proofs ProofsAlloc ProofsFrame ProofsContents ProofsRC.
 
 Theorem Inv_init : Inv_init_stmt.
 Proof. exact Inv_init_proof. Qed.
@@ -55,3 +55,9 @@ Print Assumptions RC_invariant_run.
 Theorem RC_count_is_sharers_and_free_iff_zero : RC_counts_stmt.
 Proof. exact RC_counts_proof. Qed.
 Print Assumptions RC_count_is_sharers_and_free_iff_zero.
+
+(* contents of the target handle after build, destroy, shared copy, logcopy, push_back, reallocate/resize;
+   partial: Array0(p,givWithCopy), copy/operator=, allocate, write and reserve are not covered by this theorem *)
+Theorem Target_contents_partial : Target_contents_stmt.
+Proof. exact Target_contents_proof. Qed.
+Print Assumptions Target_contents_partial.
